@@ -341,6 +341,66 @@ func c16R3(c *Ctx, rule string) {
 		c.Check(callersOK && len(who) > 0, rule, "Nullify called only by the queue-update functions", c.atFn(nf), strings.Join(who, ", "), "usage is drained by "+strings.Join(who, ", ")+": bytes collected elsewhere never reach the queue")
 	}
 	CheckGuardedBy(c, ls, GuardSpec{Rule: rule, Rel: "internal/server", Type: "userPanel", Fields: []string{"usageUpdateQueue"}, LockChain: []string{a.usageUpdateQueueM.Name()}})
+	// accumulation reaches the queue: when the user is already queued, the drained bytes are added *to the entry the
+	// map holds* — through the pointer the map stores, or by storing the updated value back. Adding to a copy of a
+	// value-typed entry loses them (Nullify has already zeroed the valve).
+	for _, name := range []string{"userPanel.updateUsageQueue", "userPanel.updateUsageQueueForOne"} {
+		f := p.Func("internal/server", name)
+		if f == nil {
+			continue
+		}
+		p.unitInstrs(f, func(i ssa.Instruction) {
+			lk, ok := i.(*ssa.Lookup)
+			if !ok || !lk.CommaOk {
+				return
+			}
+			if fv, _ := loadedField(lk.X); fv != a.usageUpdateQueue {
+				return
+			}
+			construct := "usage of an already queued user is added to the map's entry in " + shortFn(p.ownerAnchor(i.Parent()))
+			mt, _ := lk.X.Type().Underlying().(*types.Map)
+			if mt == nil {
+				return
+			}
+			if _, isPtr := mt.Elem().Underlying().(*types.Pointer); isPtr {
+				c.OK(rule, construct, c.at(i), "the map stores pointers: updates through the looked-up pointer are updates of the entry")
+				return
+			}
+			// value-typed entries: the found branch must store back
+			var okEdge ssa.Instruction
+			for _, r := range *lk.Referrers() {
+				if ex, isEx := r.(*ssa.Extract); isEx && ex.Index == 1 {
+					for _, rr := range *ex.Referrers() {
+						if iff, isIf := rr.(*ssa.If); isIf {
+							okEdge = iff
+						}
+					}
+				}
+			}
+			stored := false
+			if okEdge != nil {
+				tb := okEdge.Block().Succs[0]
+				for _, in := range tb.Instrs {
+					if mu, isMU := in.(*ssa.MapUpdate); isMU {
+						if fv, _ := loadedField(mu.Map); fv == a.usageUpdateQueue {
+							stored = true
+						}
+					}
+				}
+				if !stored {
+					// anywhere dominated by the found edge
+					allInstrs(i.Parent(), func(j ssa.Instruction) {
+						if mu, isMU := j.(*ssa.MapUpdate); isMU && tb.Dominates(j.Block()) {
+							if fv, _ := loadedField(mu.Map); fv == a.usageUpdateQueue {
+								stored = true
+							}
+						}
+					})
+				}
+			}
+			c.Check(stored, rule, construct, c.at(i), "value-typed entry stored back on the found path", "the queue holds values, and on the 'already queued' path the updated value is never stored back into the map: the bytes just drained from the valve are lost")
+		})
+	}
 	// commitUpdate: the range (snapshot) and the reset store are in one section
 	if cu := c.need(rule, "internal/server", "userPanel.commitUpdate"); cu != nil {
 		var rng, reset ssa.Instruction
